@@ -489,10 +489,93 @@ def _idict_concrete(v):
 symx.CONCRETE_HOOKS.append(_idict_concrete)
 
 
-def m_dict(*a, **kw):
-    return IDict(*a, **kw)
+class DictShim:
+    """stands in for the builtin `dict` name inside interpreted code"""
+
+    __symx_model__ = True
+
+    def __new__(cls, *a, **kw):
+        return IDict(*a, **kw)
+
+    @staticmethod
+    def fromkeys(keys, value=None):
+        d = IDict()
+        for k in m_iter(keys):
+            d[k] = value
+        return d
 
 
-m_dict.__symx_model__ = True
-symx.BUILTIN_MODELS["dict"] = m_dict
-symx.SHIM_TO_BUILTIN[m_dict] = dict
+symx.BUILTIN_MODELS["dict"] = DictShim
+symx.SHIM_TO_BUILTIN[DictShim] = dict
+
+
+# ----------------------------------------------------------------------------------------------------------------------
+# ipaddress, itertools/dict plumbing
+# ----------------------------------------------------------------------------------------------------------------------
+
+
+class SymIPv4:
+    __symx_model__ = True
+
+    def __init__(self, v):
+        self.v = v
+
+
+class IpaddressShim:
+    __symx_model__ = True
+
+    @staticmethod
+    def IPv4Address(x):
+        import ipaddress
+
+        x = unwrap(x)
+        if isinstance(x, SymInt):
+            if truth(SymInt.cmp("<", x, 0)) or truth(SymInt.cmp(">=", x, 1 << 32)):
+                raise ipaddress.AddressValueError("out of range")
+            return SymIPv4(x)
+        if isinstance(x, SymBytes):
+            if len(x.cells) != 4:
+                raise ipaddress.AddressValueError("need 4 bytes")
+            return SymIPv4(m_int_from_bytes(x, "big"))
+        return ipaddress.IPv4Address(x)
+
+
+IpaddressShim.IPv4Address.__symx_model__ = True
+
+
+def _str_ipv4(x):
+    if isinstance(x, SymIPv4):
+        from .models_str import int_to_str
+
+        cells = []
+        for i in range(3, -1, -1):
+            octet = binop("%", binop("//", x.v, 256**i), 256)
+            if cells:
+                cells.append(46)
+            cells.extend(seq_cells(int_to_str(octet) if not isinstance(octet, int) else str(octet), SymStr))
+        return SymStr(cells)
+    return NOT_HANDLED
+
+
+from . import models_str as _ms  # noqa: E402
+
+_ms.STR_HOOKS.append(_str_ipv4)
+DEFAULT_OVERRIDES["ipaddress"] = IpaddressShim
+
+
+def _plumbing_hook(self, f, args, kwargs):
+    import itertools
+
+    if f is itertools.zip_longest:
+        return itertools.zip_longest(*[m_iter(a) for a in args], **kwargs)
+    if f is itertools.chain:
+        return itertools.chain(*[m_iter(a) for a in args])
+    if getattr(f, "__name__", "") == "fromkeys" and getattr(f, "__self__", None) in (dict, IDict):
+        d = IDict()
+        for k in m_iter(args[0]):
+            d[k] = args[1] if len(args) > 1 else None
+        return d
+    return NOT_HANDLED
+
+
+CALL_HOOKS.append(_plumbing_hook)
